@@ -161,7 +161,7 @@ def check(run):
     ents = family(t, core.seed())
     run.assumptions += ["C18/C: off-circuit and in-circuit agreement is decided per operation on one-instruction programs; composition through the shared memory map is not re-verified",
                         "the off-circuit evaluator is exercised concretely (its output is the instance of the honest run, which the real MockProver must accept); its agreement with the documented semantics for ALL inputs follows only where the circuit obligation pins the semantics (sound circuit + accepted honest run)"]
-    run.outside += ["Jubjub point/scalar operations, Poseidon/SHA operations (C06/C07 limits), BigUint operations (pending), random multi-instruction programs, JSON/bincode round trips (third-party codecs)"]
+    run.outside += ["Jubjub point/scalar operations, Poseidon/SHA operations (C06/C07 limits), BigUint operations (part C18_B), random multi-instruction programs, JSON/bincode round trips (third-party codecs)"]
     run.bounds.append(f"C18/C tier={t}: {len(ents)} one-operation programs over Native/Bool/Bytes")
     # zkir circuits choose their own k (MidnightCircuit::min_k)
     for en in ents:
